@@ -188,7 +188,7 @@ def cases(draw):
 
 
 SUBS = [
-    pbt.Sub("continue_after_restart", cases(), check_restart, quick=400, thorough=60000,
+    pbt.Sub("continue_after_restart", cases(), check_restart, quick=2400, thorough=60000,
             shrink_budget=8,
             rule="box with dyadic (25%) or arbitrary decimal sides/anchors, optional components (hydro mask, external point mass, turbulence forcing on cubic boxes, live output), 3..12 cells per axis, layouts dividing them, periodic/reflective/inflow/outflow boundaries, 2-4 density/temperature/velocity blocks, gamma in {5/3,1.4,1.0001,2}, N=3..8 steps, 1-3 stop points; one thread; non-trivial: the state changes during the run and (cell size not dyadic, or a chain of restarts)",
             floors={"non-dyadic-cell-size": 0.4}),
